@@ -24,6 +24,7 @@ from .events import (
     Timeout,
     URGENT,
     NORMAL,
+    _copy_failure,
 )
 
 
@@ -230,9 +231,7 @@ class Environment:
             # environment.
             # Create a copy of the failure exception with a new traceback.
             # Multiple process can wait for the same failed event.
-            exc = type(event._value)(*event._value.args)
-            exc.__cause__ = event._value
-            raise exc
+            raise _copy_failure(event._value)
 
         if stop is not None:
             raise stop
